@@ -42,20 +42,41 @@ PreStates == {"empty", "shorter", "longer", "dir", "readonly"}
 LibVerdicts == {"ok", "err", "panic", "n/a"}
 
 \* sub-commands that by design consume the whole input (so any damage the library rejects defeats them)
-Whole(f, c) == c \in {"validate", "convert", "export", "list", "tiles", "extract", "rebuild", "compare",
-                      "skin-convert", "anim-convert", "analyze", "discover"}
+WholeByDesign(f, c) == c \in {"validate", "convert", "export", "list", "tiles", "extract", "rebuild", "compare",
+                             "skin-convert", "anim-convert", "analyze", "discover"}
+\* sub-commands of the format families that go through the SAME library entry point the reference verdict `lib` is taken from
+\* (dbc: DbcParser::parse + parse_records -- `dbc info` prints a sample record; blp: load_blp; m2 / skin / anim: *::load;
+\* wmo: parse_wmo_with_metadata; adt: parse_adt_with_metadata; wdt: WdtReader::read; wdl: WdlParser::parse): if the library
+\* rejects the bytes at that entry point the sub-command cannot have done its job, wherever the damage is (header intact / body
+\* truncated, string block cut, header field damaged with the body intact)
+SameEntry(f, c) == f # "mpq" /\ c \in {"info", "tree", "skin-info", "anim-info", "blp-info"}
+Whole(f, c) == WholeByDesign(f, c) \/ SameEntry(f, c)
 \* sub-commands whose job is to write files
 Producer(f, c) == c \in {"convert", "skin-convert", "anim-convert", "export", "create", "extract", "rebuild"}
 \* sub-commands whose printed facts are compared with the library's view
-Viewer(f, c) == <<f, c>> \in {<<"mpq", "list">>, <<"mpq", "info">>, <<"wdt", "tiles">>, <<"dbc", "export">>}   \* per output-format option
+Viewer(f, c) == <<f, c>> \in {<<"mpq", "list">>, <<"mpq", "tree">>, <<"mpq", "info">>, <<"wdt", "tiles">>, <<"dbc", "export">>,
+                               <<"blp", "convert">>}   \* per output-format / filter / selector option
+
+\* The filter contract of `--filter PATTERN` ("supports wildcards"), stated independently of utils/io.rs: matching is
+\* case-insensitive; `*` stands for any (possibly empty) run of characters and is the only wildcard (`?` is an ordinary character);
+\* a pattern without `*` selects the names that CONTAIN it.  p, t: sequences of one-character strings, already lower-cased.
+RECURSIVE GlobFrom(_, _, _, _)
+GlobFrom(p, t, i, j) == IF i > Len(p) THEN j > Len(t)
+                        ELSE IF p[i] = "*" THEN GlobFrom(p, t, i + 1, j) \/ (j <= Len(t) /\ GlobFrom(p, t, i, j + 1))
+                        ELSE j <= Len(t) /\ p[i] = t[j] /\ GlobFrom(p, t, i + 1, j + 1)
+HasStar(p) == \E i \in 1..Len(p) : p[i] = "*"
+GlobMatch(p, t) == IF p = <<>> THEN TRUE
+                   ELSE IF HasStar(p) THEN GlobFrom(p, t, 1, 1)
+                   ELSE \E k \in 0..(Len(t) - Len(p)) : SubSeq(t, k + 1, k + Len(p)) = p
 
 \* ---------------------------------------------------------------------------------------------------
 \* the matrix: is this run one the tool cannot carry out?
-\* r: [fam, cmd, input, lib, libval, missing, skip]
+\* r: [fam, cmd, input, lib, libval, missing, skip, sel]
 \*   lib     library verdict on the (possibly damaged) input: "ok" | "err" | "panic" | "n/a"(nonexistent)
 \*   libval  library verdict of validation / of reading every file: "ok" | "fail" | "n/a"
 \*   missing an explicitly requested name is absent from the archive (mpq extract)
 \*   skip    --skip-errors given
+\*   sel     a numeric selector option (--mipmap-level ...) names something the input has ("in"), does not have ("out"), or "n/a"
 \* ---------------------------------------------------------------------------------------------------
 Rejected(r) == r.lib \in {"err", "panic"}
 FailureClass(r) ==
@@ -63,6 +84,7 @@ FailureClass(r) ==
     \/ r.input \in HeadDamage /\ Rejected(r)                             \* malformed: nothing readable
     \/ r.input \in Damaged /\ Rejected(r) /\ Whole(r.fam, r.cmd)         \* malformed: whole-input sub-commands
     \/ r.cmd = "validate" /\ r.libval = "fail"                           \* failed validation
+    \/ r.sel = "out"                                                     \* asked for something the input does not contain
     \/ r.fam = "mpq" /\ r.cmd = "extract" /\ ~r.skip /\ (r.missing \/ r.libval = "fail")   \* failed extraction, no error skipping
 Obligation(r) == IF FailureClass(r) THEN "must_fail"
                  ELSE IF Producer(r.fam, r.cmd) THEN "complete_if_zero"
@@ -117,7 +139,7 @@ cvars == <<vdisk, vmade, varch, vdamaged, vout, vlast, vextracted>>
 
 Maps == UNION {[S -> Toks] : S \in SUBSET Names}
 AsSet(m) == {<<n, m[n]>> : n \in DOMAIN m}
-Run0(f, c, inp) == [fam |-> f, cmd |-> c, input |-> inp, lib |-> "ok", libval |-> "ok", missing |-> FALSE, skip |-> FALSE]
+Run0(f, c, inp) == [fam |-> f, cmd |-> c, input |-> inp, lib |-> "ok", libval |-> "ok", missing |-> FALSE, skip |-> FALSE, sel |-> "n/a"]
 
 NoOutcome == [exit |-> 0, says_fail |-> FALSE, want |-> {}, got |-> {}, outs_ok |-> TRUE, view_ok |-> TRUE, rt_ok |-> TRUE, pre_ok |-> TRUE]
 NoRun == [r |-> Run0("mpq", "-", "valid"), o |-> NoOutcome]
